@@ -238,7 +238,7 @@ pub fn run_check(args: &Args, spec: CheckSpec) -> ! {
         let share = remaining / (n - i) as f64;
         all.push(run_one(sc, share));
     }
-    let capped_idx: Vec<usize> = all.iter().enumerate().filter(|(_, s)| s.capped.as_deref() == Some("wall-clock cap reached") && s.machinery_errors.is_empty()).map(|(i, _)| i).collect();
+    let capped_idx: Vec<usize> = all.iter().enumerate().filter(|(_, s)| s.capped.as_deref().map_or(false, |c| c.starts_with("wall-clock cap reached")) && s.machinery_errors.is_empty()).map(|(i, _)| i).collect();
     for (k, i) in capped_idx.iter().enumerate() {
         let remaining = total_budget - start.elapsed().as_secs_f64();
         let share = remaining / (capped_idx.len() - k) as f64;
